@@ -1284,6 +1284,10 @@ class DecoderSpecificInfo(Descriptor):
                     w.writebits(1, "aac_scalefactor_data_resilience_flag")
                     w.writebits(1, "aac_spectral_data_resilience_flag")
                 w.writebits(1, "extension_flag_3")
+            if w.bits is not None and (len(w.bits) & 7):
+                # padding up to the next byte boundary
+                w.writebits(8 - (len(w.bits) & 7), 'reserved',
+                            getattr(self, 'reserved', 0))
         w.done()
         if self.data is not None:
             w.write(None, "data")
